@@ -207,8 +207,8 @@ void LatticePresets::addMagnetization(Lattice *L, const std::string& Label, Mele
     unsigned short Spins = L->Sites[Label]->SpinSize;
     if (Spins!=2) { ERROR("addSzSz doesn't work not for 2 spins."); throw (Lattice::Term::Presets::exWrongIndices()); };
     for (unsigned short i=0; i<Orbitals; ++i) {
-            L->Terms->addTerm(Lattice::Term::Presets::Level(Label, Magnetization, i, Pomerol::up ));
-            L->Terms->addTerm(Lattice::Term::Presets::Level(Label, -Magnetization, i, Pomerol::down ));
+            L->Terms->addTerm(Lattice::Term::Presets::Level(Label, Magnetization/2., i, Pomerol::up ));
+            L->Terms->addTerm(Lattice::Term::Presets::Level(Label, -Magnetization/2., i, Pomerol::down ));
         };
 }
 
